@@ -69,3 +69,15 @@ Proof.
   rewrite H4, E1. unfold dgroups in *. repeat split; try assumption. rewrite H3. exact E2.
 Qed.
 Print Assumptions C04_translated_exhaustive_results_diagnostics_match_reported_ids.
+
+(* the score tuple (tbrmmscore.py, regenerated on every run into gen/Gen_Score.v) is made, in the documented order, of the
+   four test verdicts, round(corr, 2) and 1 / required_impact of the diagnostics object the score holds -- which the
+   theorems above show to be the design's own; its fields carry the documented names *)
+From Coq Require Import String.
+From MM Require Import lib.PyScore gen.Gen_Score proofs.ScoreOrder.
+Theorem C04_score_tuple_is_the_documented_function_of_its_diagnostics : gen_score_tuple = documented_score.
+Proof. exact gen_score_is_documented. Qed.
+Theorem C04_score_fields_are_the_documented_ones :
+  gen_score_fields = ["corr_test"; "aa_test"; "bb_test"; "dw_test"; "corr"; "inv_required_impact"]%string.
+Proof. exact gen_score_fields_documented. Qed.
+Print Assumptions C04_score_tuple_is_the_documented_function_of_its_diagnostics.
